@@ -542,9 +542,23 @@ def quoted_title_accepted(c, chk, ex):
         if p.end != 'ret':
             continue
         quotes = 0
+        from .. import bufsize as _bs
+
+        def place(v):
+            while v[0] == 'bin' and v[1] in ('sext', 'zext', 'trunc'):
+                v = v[2]
+            return _bs.split_ptr(v[1]) if v[0] == 'ld' else (None, None)
+        backslashes = []
+        for cn, t, _ in p.assume:
+            if cn[0] == 'icmp' and cn[1] in ('eq', 'ne') and ('c', 92) in (cn[2], cn[3]) and ((cn[1] == 'eq') == t):
+                backslashes.append(place(cn[2] if cn[3] == ('c', 92) else cn[3]))
         for cn, t, _ in p.assume:
             if cn[0] == 'icmp' and cn[1] in ('eq', 'ne') and ('c', 39) in (cn[2], cn[3]) and ((cn[1] == 'eq') == t):
-                quotes += 1
+                b, o = place(cn[2] if cn[3] == ('c', 39) else cn[3])
+                escaped = any(b2 is not None and b is not None and sym.norm(b2) == sym.norm(b) and o2 is not None and o is not None and o2.add(_bs.Lin(1)).eq(o)
+                              for b2, o2 in backslashes)
+                if not escaped:          # (a quote right behind a backslash is an escaped quote, part of the title)
+                    quotes += 1
         if quotes < 2:
             continue          # opening quote only (or no quote at all)
         n += 1
